@@ -1,0 +1,45 @@
+// SPDX-FileCopyrightText: 2026 The Pion community <https://pion.ly>
+// SPDX-License-Identifier: MIT
+
+//go:build verif
+
+// Machine-checked contracts for package proto (comment-only file; compiled only with -tags verif,
+// and even then it adds no code). Checked by /verif/turnvc against the go/ssa of this package.
+
+package proto
+
+//@ spec func pad4(n int) int = 4 * ((n + 3) / 4)
+//@ spec func be16(b []byte, i int) int = int(b[i])*256 + int(b[i+1])
+//@ spec func be32(b []byte, i int) int = ((int(b[i])*256 + int(b[i+1]))*256 + int(b[i+2]))*256 + int(b[i+3])
+//@ spec func validChan(n int) bool = 0x4000 <= n && n <= 0x7FFF
+//@ spec func hasCookie(b []byte) bool = b[4] == 0x21 && b[5] == 0x12 && b[6] == 0xA4 && b[7] == 0x42
+//@      // RFC 5766 s.11: the two kinds are told apart by the first two bits, never by payload bytes
+//@ spec func isStun(b []byte) bool = len(b) >= 20 && b[0] < 0x40 && hasCookie(b)
+//@ spec func isChan(b []byte) bool = len(b) >= 4 && validChan(be16(b, 0))
+//@ spec func frameLen(b []byte) int = isStun(b) ? 20 + be16(b, 2) : 4 + pad4(be16(b, 2))
+//@ spec func complete(b []byte) bool = (isStun(b) || isChan(b)) && len(b) >= frameLen(b)
+
+//@ func consumeSingleTURNFrame
+//@   pure
+//@   ensures [C10:exact] res1 == nil ==> complete(b) && res0 == frameLen(b)
+//@   ensures [C10:prompt] complete(b) ==> res1 == nil
+//@   ensures [C09,C10:progress] res1 == nil ==> 0 < res0 && res0 <= len(b)
+//@   ensures [C10:reject] res1 == errInvalidTURNFrame ==> len(b) >= 20 && !isStun(b) && !isChan(b)
+//@   ensures [C10:errors] res1 == nil || res1 == errInvalidTURNFrame || res1 == errIncompleteTURNFrame
+
+//@ func nearestPaddedValueLength
+//@   pure
+//@   requires 0 <= l && l <= 281474976710656
+//@   ensures [C11:pad] res == pad4(l)
+
+//@ func isChannelNumberValid
+//@   pure
+//@   ensures [C08,C11:range] res == validChan(c)
+
+//@ func (ChannelNumber).Valid
+//@   pure
+//@   ensures [C08,C11:range] res == validChan(n)
+
+//@ func IsChannelData
+//@   pure
+//@   ensures [C11:agree] res == (len(buf) >= 4 && validChan(be16(buf, 0)) && be16(buf, 2) <= len(buf) - 4)
